@@ -9,6 +9,11 @@
 //	adv    McIlroy's antiquicksort adversary behind a FuncKey (drives quickSort to maxDepth 0 and
 //	       into heapSort); the final rank table is sent so that the model replays the same Less
 //	matrix an arbitrary (inconsistent) Less table behind a FuncKey: permutation + exact replay only
+//	frame  QFrame.Sort on frames however derived (earlier Sort / Slice / Filter / Distinct, re-selected
+//	       column order, a key column that was replaced, an extra column of every type, Err receivers,
+//	       unknown and repeated order columns, no order at all): the PHYSICAL dump of receiver and
+//	       result (qframe.VerifDump) is compared exactly with Model/SortFrame.v sort_frame and checked
+//	       by the oracle (whole rows, spec order, columns identical); see frame.go
 package main
 
 import (
@@ -717,10 +722,10 @@ func matrixCase(s *hlib.Suite, r *hlib.Rng, tier string) {
 func main() {
 	cfg := hlib.ParseFlags()
 	s := hlib.NewSuite(cfg, "sort")
-	s.Header = "From Coq Require Import Uint63.\nFrom QF Require Import Base.Prelude Base.CaseLib Model.Sort Corr.SortCorr.\n"
+	s.Header = "From Coq Require Import Uint63.\nFrom QF Require Import Base.Prelude Base.CaseLib Model.Frame Model.Sort Corr.SortCorr.\n"
 	s.CaseType = "sort_case"
 	s.CheckFn = "check_sort"
-	s.Rule = "families hook (real Comparables of int/float/bool/string/enum columns + real internal/sort on identity / permuted / reversed / subset / repeated-id indexes), api (qframe.New + Sort + MustIntView(rowid)), adversary (McIlroy antiquicksort behind a FuncKey, final ranks replayed), matrix (arbitrary inconsistent Less table). Sizes 0..14, 39..42, 15..38, 43..300, 1000 (thorough 3000); 1-3 keys, all Reverse x NullLast, alphabets of 1-4 (sometimes 5-8, sometimes n) values incl. NaN payloads, +-0, +-Inf, nil, empty string, bytes >= 0x80, enum declared order different from byte order; data patterns random / sorted / reversed / organ-pipe / all-equal / sawtooth. Non-trivial = index length >= 2; distinct by Coq term."
+	s.Rule = "families hook (real Comparables of int/float/bool/string/enum columns + real internal/sort on identity / permuted / reversed / subset / repeated-id indexes), api (qframe.New + Sort + MustIntView(rowid)), adversary (McIlroy antiquicksort behind a FuncKey, final ranks replayed), matrix (arbitrary inconsistent Less table), frame (QFrame.Sort on derived frames: physical dump of receiver and result vs Model/SortFrame.v sort_frame + oracle on whole rows / spec order / identical columns; Err receivers, unknown, repeated and zero orders). Sizes 0..14, 39..42, 15..38, 43..300, 1000 (thorough 3000); 1-3 keys, all Reverse x NullLast, alphabets of 1-4 (sometimes 5-8, sometimes n) values incl. NaN payloads, +-0, +-Inf, nil, empty string, bytes >= 0x80, enum declared order different from byte order; data patterns random / sorted / reversed / organ-pipe / all-equal / sawtooth. Non-trivial = index length >= 2; distinct by Coq term."
 	per := cfg.N/14 + 1
 	if per < 20 {
 		per = 20
@@ -733,14 +738,16 @@ func main() {
 	for i := 0; i < cfg.N; i++ {
 		cr := r.Fork()
 		switch x := cr.Intn(100); {
-		case x < 50:
+		case x < 42:
 			hookCase(s, cr, cfg.Tier)
-		case x < 85:
+		case x < 68:
 			apiCase(s, cr, cfg.Tier)
-		case x < 92:
+		case x < 75:
 			advCase(s, cr, cfg.Tier)
-		default:
+		case x < 82:
 			matrixCase(s, cr, cfg.Tier)
+		default:
+			frameCase(s, cr, cfg.Tier)
 		}
 	}
 	s.Finish()
